@@ -138,6 +138,7 @@ struct carquet_column_reader {
     bool page_loaded;           /* Is a page currently loaded? */
     int32_t page_num_values;    /* Total values in current page */
     int32_t page_values_read;   /* Values already read from current page */
+    int32_t page_non_null_read; /* Non-null values already read (index into decoded_values) */
     int32_t page_header_size;   /* Size of current page header */
     int32_t page_compressed_size; /* Size of current page compressed data */
     uint8_t* decoded_values;    /* Buffer for decoded values from current page */
